@@ -134,6 +134,7 @@ func runCheck(o CheckOpts) int {
 		fmt.Fprintln(os.Stderr, "prelude:", err)
 		return 2
 	}
+	loadHints(o.Verif)
 	p, err := loadProgram(o.Root)
 	if err != nil {
 		fmt.Fprintln(os.Stderr, "cannot load repository:", err)
